@@ -1,5 +1,5 @@
 #!/bin/bash
-# /verif/run.sh <Cxx> <quick|thorough>   run one property's check
+# /verif/run.sh <Cxx> <quick|thorough> [+N]   run one property's check (+N: N deviations deeper, engine T)
 # /verif/run.sh replay <file>            replay a violation artefact
 # /verif/run.sh build                    (re)build the harness against /repo's working tree
 # /verif/run.sh setup                    build + machinery self-tests + pass-through conformance
@@ -52,6 +52,8 @@ case "$cmd" in
     build
     # thread-local state in the tree under test: no pooling of OS threads (see rt/src/exec.rs pool_run)
     [ "$(cat "$B/inst/.thread_local" 2>/dev/null)" = 1 ] && export RXVERIF_NO_POOL=1
+    # optional third argument +N: N more deviations than the catalogue's bound in every T scenario
+    case "${3:-}" in +[0-9]*) export VERIF_BOUND_ADD="${3#+}";; esac
     exec "$B/target/release/vcheck" check "$cmd" --tier "${2:-${VERIF_TIER:-quick}}";;
   *)
     echo "usage: run.sh <Cxx> <quick|thorough> | replay <file> | build | setup"; exit 2;;
